@@ -13,7 +13,7 @@ import (
 )
 
 func init() {
-	register(&Rule{ID: "T-LEX", Props: []string{"C04", "C16", "C03", "C11", "C09", "C10", "C19"}, Floor: 14,
+	register(&Rule{ID: "T-LEX", Props: []string{"C04", "C16", "C03", "C11", "C09", "C10", "C19", "C18"}, Floor: 14,
 		Doc: "The lexical grammar, by path enumeration of the lexer's Next over a stream of symbolic runes (sub-scanners and helpers inlined, any source form): every token is produced for exactly its spelling (one-, two- and three-rune operators with their longest-match lookahead, numbers with optional minus, identifiers and the keywords in/let, $ and variables, and the three delimited literals whose body is any rune but the delimiter and the backslash, or a backslash followed by any rune); the token's text is exactly the runes consumed and the position moves to just after them; only white space is skipped before a token; every position is the start position plus the sizes of the runes before it (a constant step only over a rune the path has pinned to ASCII); every other rune is rejected.",
 		Run: ruleTLex})
 }
@@ -166,6 +166,17 @@ func ruleTLex(p *Program, r *Reporter) {
 			continue
 		}
 		if o.Cut {
+			// a path still scanning when the loop bound was reached: it must not have seen the decoder fail (at the end of
+			// the text the decoder consumes nothing, and a scanner that goes on never advances again)
+			for _, ev := range o.St.Trace {
+				if ev.Kind == "decode-err" && o.CutBlock != nil {
+					k := "decode error ignored in " + o.CutBlock.Parent().Name()
+					if !reported[k] {
+						reported[k] = true
+						r.Bad(ev.Pos, k, "a path goes on scanning after the rune decoder reported an error (end of the text or an invalid sequence): the decoder consumed nothing, so the scanner does not advance any more")
+					}
+				}
+			}
 			continue
 		}
 		lp := d.describe(o, 0)
